@@ -14,6 +14,8 @@ precondition does not hold:
   frontback   `.front()` / `.back()`                (UB on empty)
   strto       std::stoi family / strtol / strtof... (throws / errno protocol)
   resize      `.resize(` with a value computed from input (length_error/bad_alloc)
+  substr      `.substr(` / `.remove_prefix(` / `.remove_suffix(`  (out_of_range / UB when pos > size())
+  popback     `.pop_back()`                          (UB on empty)
   rtfmt       a run-time string used as a {fmt} format string (fmt::format_error)
   recursion   a function on a cycle of the (name level) call graph
 
@@ -216,6 +218,8 @@ SIMPLE = [
     ('frontback', re.compile(r'(?:\.|->)(?:front|back)\s*\(\s*\)')),
     ('strto', re.compile(r'\b(?:std::)?(?:sto(?:i|l|ll|ul|ull|f|d|ld)|strto(?:l|ll|ul|ull|f|d|ld|imax|umax)|ato(?:i|l|ll|f))\s*\(')),
     ('resize', re.compile(r'(?:\.|->)resize\s*\(')),
+    ('substr', re.compile(r'(?:\.|->)(?:substr|remove_prefix|remove_suffix)\s*\(')),
+    ('popback', re.compile(r'(?:\.|->)pop_back\s*\(\s*\)')),
 ]
 
 
